@@ -194,11 +194,15 @@ func (h264dp *h264Depacketizer) writeFrame(rtpTimestamp uint32, frame *codec.Fra
 	nalType := frame.Payload[0] & 0x1f
 	switch nalType {
 	case h264.NalSps:
+		// 只采纳能够解码的参数集：一个被截断/损坏的 SPS 一旦被采纳，后面正确的 SPS 就再也进不来了
 		if len(h264dp.meta.Sps) == 0 {
-			h264dp.meta.Sps = frame.Payload
+			var sps h264.RawSPS
+			if sps.Decode(frame.Payload) == nil {
+				h264dp.meta.Sps = frame.Payload
+			}
 		}
 	case h264.NalPps:
-		if len(h264dp.meta.Pps) == 0 {
+		if len(h264dp.meta.Pps) == 0 && len(frame.Payload) > 1 {
 			h264dp.meta.Pps = frame.Payload
 		}
 	case h264.NalFillerData: // ?ignore...
